@@ -1364,8 +1364,12 @@ class ProcessPoolExecutor(Executor):
         # objects that use file descriptors.
         self._executor_manager_thread = None
         self._executor_manager_thread_wakeup = None
-        self._call_queue = None
-        self._result_queue = None
-        self._processes_management_lock = None
+        if executor_manager_thread is None or wait:
+            # When not waiting for it, the executor manager thread is still
+            # running: it needs these objects to replace a worker that exits
+            # (time-out, memory leak guard) while some work is still pending.
+            self._call_queue = None
+            self._result_queue = None
+            self._processes_management_lock = None
 
     shutdown.__doc__ = Executor.shutdown.__doc__
